@@ -240,6 +240,50 @@ def run_reset(params, ch):
     return {'outcome': (len(viol),), 'viol': viol, 'nontrivial': tuple(sorted(params.items())), 'sample': dict(params), 'trans': 6}
 
 
+def run_reconnect_unread(params, ch):
+    """close() and connect() again while bytes of the old connection are still unread (some of them possibly already taken from the
+    socket by the transport): the new connection delivers exactly the new peer's bytes."""
+    kind = params['transport']
+    peer = tcpsim.Peer()
+    d = Drv(kind, peer.port)
+    viol = []
+    try:
+        d.call('connect', 5.0)
+        peer.accept()
+        old = bytes(65 + i % 50 for i in range(params['sent']))
+        peer.write(old)
+        time.sleep(0.02)
+        got = b''
+        while len(got) < params['read']:
+            got += d.call('bulk_read', params['read'] - len(got), 5.0)
+        if got != old[:params['read']]:
+            viol.append({'msg': 'first connection: read %r, the peer wrote %r' % (got, old)})
+        for _ in range(params['closes']):
+            d.call('close')
+        peer.close_conn()
+        d.call('connect', 5.0)
+        peer.accept()
+        new = b'new-connection-bytes'
+        peer.write(new)
+        r = b''
+        while len(r) < len(new):
+            r += d.call('bulk_read', len(new) - len(r), 5.0)
+        if r != new:
+            viol.append({'msg': 'after close()/connect() with %d unread bytes on the old connection the transport read %r, the new peer wrote %r' % (params['sent'] - params['read'], r, new)})
+        try:
+            extra = d.call('bulk_read', 16, 0.05)
+            viol.append({'msg': 'a further read on the idle new connection returned %r' % (extra,)})
+        except Exception as e:  # pylint: disable=broad-except
+            if type(e).__name__ != 'TcpTimeoutException':
+                viol.append({'msg': 'a further read on the idle new connection raised %s' % type(e).__name__})
+    except Exception as e:  # pylint: disable=broad-except
+        viol.append({'msg': 'reconnect script %r raised %s: %s' % (params, type(e).__name__, str(e)[:200])})
+    finally:
+        d.finish()
+        peer.close()
+    return {'outcome': (len(viol),), 'viol': viol, 'nontrivial': tuple(sorted(params.items())), 'sample': dict(params), 'trans': 6}
+
+
 _REF = {}
 PUSH = {'small': 100 * 1024, 'big': 1024 * 1024}
 
@@ -380,6 +424,9 @@ def parts(tier):
     sc = [{'transport': t, 'pending': p, 'touch': x} for t in ('sync', 'async') for p in (False, True) for x in (False, True)]
     out.append(Part('peer-reset', sc, run_reset, what='the peer resets the connection; close twice; connect again', bound='%d scripts' % len(sc), chunk=1, min_outcomes=1))
     sc = session_scenarios(tier)
+    scu = [{'transport': t, 'sent': n, 'read': r, 'closes': c} for t in ('sync', 'async') for (n, r) in ((10, 5), (10, 1), (40, 24), (5000, 24)) for c in (1, 2)]
+    out.append(Part('reconnect-with-unread-bytes', scu, run_reconnect_unread, what='close and connect again while bytes of the old connection are unread: the new connection delivers only the new peer\'s bytes',
+                    bound='%d scripts' % len(scu), chunk=1, min_outcomes=1))
     out.append(Part('loopback-sessions', sc, run_tcp_session, what='whole device sessions over loopback TCP against the device model', bound='%d sessions (conformance runs, not exhaustive)' % len(sc),
                     exhaustive=False, chunk=1, min_outcomes=1, workers=4))
     return out
